@@ -3,8 +3,6 @@ From K Require Import Lib.Bits Model.Machine Model.Bus Model.Cost Spec.Price.
 Open Scope bool_scope. Open Scope Z_scope.
 Ltac Zify.zify_post_hook ::= Z.div_mod_to_equations.
 
-Lemma land1_mod2 x : Z.land x 1 = x mod 2.
-Proof. change 1 with (2^1 - 1). apply land_ones_mod. lia. Qed.
 Lemma land3_mod4 x : Z.land x 3 = x mod 4.
 Proof. change 3 with (2^2 - 1). apply land_ones_mod. lia. Qed.
 
